@@ -27,9 +27,16 @@ def _copy_repo(dst):
 
 
 def _apply(d, edits):
+    import re as _re
     for e in edits:
         p = os.path.join(d, e["file"])
         s = open(p).read()
+        if "regex" in e:
+            s2, n = _re.subn(e["regex"], e["repl"], s, flags=_re.S)
+            if n < e.get("min", 1):
+                return False
+            open(p, "w").write(s2)
+            continue
         old, new = e["old"], e["new"]
         occ = e.get("occurrence")
         n = s.count(old)
